@@ -10,6 +10,7 @@ from .naming import _sanitize_user_name
 from .errors import SerifKeyError
 from .errors import SerifValueError
 from .errors import SerifTypeError
+from .errors import SerifIndexError
 
 
 def _missing_col_error(name, context="Table"):
@@ -693,6 +694,9 @@ class Table(Vector):
 			# Effectively a different input type (single not a list). Returning a value, not a vector.
 			if isinstance(self._underlying[0], Table):
 				return self._underlying[key]
+			if not -self._length <= key < self._length:
+				# (a Row is a lazy view: without this the error only came when a cell was read)
+				raise SerifIndexError(f"Row index {key} out of range for table of {self._length} rows")
 			return Row(self, key)
 
 		if isinstance(key, Vector) and key.schema().kind == bool and not key.schema().nullable:
